@@ -2,10 +2,13 @@ package props
 
 import (
 	"context"
+	"encoding/json"
 	"fmt"
 	"math/rand"
+	"os"
 	"strings"
 	"sync"
+	"sync/atomic"
 	"time"
 
 	"github.com/ThreeDotsLabs/watermill/message"
@@ -195,6 +198,255 @@ func subdecRun(r *tr.Run, rng *rand.Rand, waitCancel bool) {
 	}()
 	if !WaitOrHang(waitWG(&wg)) {
 		r.Emit("hung", "what", "decorator scenario")
+		return
+	}
+	r.Emit("end")
+	r.NonTrivial = true
+}
+
+// subdecSchedules reads the schedules that TLC sampled from SubDecorator.tla (bin/gen-decorator-schedules); nil when the
+// generator did not run.
+func subdecSchedules() [][]string {
+	path := os.Getenv("VERIF_DECORATOR_SCHEDULES")
+	if path == "" {
+		return nil
+	}
+	b, err := os.ReadFile(path)
+	if err != nil {
+		return nil
+	}
+	var ws [][]string
+	if json.Unmarshal(b, &ws) != nil {
+		return nil
+	}
+	return ws
+}
+
+// subdecReplay drives the real decorator along one schedule of the specification. Every hook point of the run is gated: a goroutine
+// of the decorator that reaches one stays there until the schedule releases it, so the interleaving is the schedule's as far
+// as the code lets it (where the code has a choice of its own -- the select in the forwarder -- it may leave the schedule; every
+// wait is bounded and every harness action is a legal move of the environment, so the recorded trace is judged like any other).
+func subdecReplay(r *tr.Run, word []string) {
+	prefix := fmt.Sprintf("r%d-", r.ID)
+	trim := func(s string) string { return strings.TrimPrefix(s, prefix) }
+	inner := scripted.NewSub("inner")
+	dec, err := message.MessageTransformSubscriberDecorator(func(*message.Message) {})(inner)
+	if err != nil {
+		r.Emit("error", "what", err.Error())
+		return
+	}
+	onHook := func(point string, ids []string) {
+		if f, ok := subdecHooks[point]; ok && len(ids) > 0 {
+			r.Emit("hook", "g", f(ids, trim), "point", point)
+		}
+	}
+	defer sched.Observe(prefix, onHook)()
+	defer sched.ObserveID(verifhook.Ptr(dec), onHook)()
+
+	const step = 150 * time.Millisecond
+	type subSt struct {
+		ctx      context.Context
+		cancel   context.CancelFunc
+		topic    string
+		gAdded   *sched.Gate
+		gClosed  *sched.Gate
+		gOut     []*sched.Gate
+		called   bool
+		returned chan struct{} // Subscribe has returned
+		ok       bool
+		recvCmd  chan struct{}
+		recvDone chan struct{}
+		pending  int32 // receive commands the consumer has not completed yet
+		stopped  bool
+		emitted  int
+		released int
+	}
+	var all []*sched.Gate
+	park := func(point, id string) *sched.Gate {
+		g := sched.Park(point, id)
+		all = append(all, g)
+		return g
+	}
+	defer func() {
+		for _, g := range all {
+			g.Release()
+		}
+	}()
+	st := map[string]*subSt{}
+	for _, s := range []string{"s1", "s2"} {
+		ctx, cancel := context.WithCancel(verifhook.WithName(context.Background(), prefix+s))
+		x := &subSt{ctx: ctx, cancel: cancel, topic: "t-" + s, returned: make(chan struct{}), recvCmd: make(chan struct{}, 8), recvDone: make(chan struct{}, 8)}
+		x.gAdded = park("decorator.subscribe.added", prefix+s)
+		x.gClosed = park("decorator.sub.closed", prefix+s)
+		for i := 1; i <= subdecK; i++ {
+			x.gOut = append(x.gOut, park("decorator.sub.before_out", fmt.Sprintf("%s%s-m%d", prefix, s, i)))
+		}
+		st[s] = x
+		defer cancel()
+	}
+	innerStart := make(chan struct{}) // the inner subscriber's Close goes ahead (schedule step "innerstart")
+	var innerStartOnce sync.Once
+	letInnerClose := func() { innerStartOnce.Do(func() { close(innerStart) }) }
+	defer letInnerClose()
+	inner.BeforeClose = func() { <-innerStart }
+	gInner := park("decorator.close.inner_closed", verifhook.Ptr(dec))
+	gSignalled := park("decorator.close.signalled", verifhook.Ptr(dec))
+	gWaited := park("decorator.close.waited", verifhook.Ptr(dec))
+	var wg sync.WaitGroup
+	closeCalled := false
+	for _, w := range word {
+		op, s := w, ""
+		if i := strings.Index(w, ":"); i >= 0 {
+			op, s = w[:i], w[i+1:]
+		}
+		x := st[s]
+		switch op {
+		case "sub":
+			if x.called {
+				continue
+			}
+			x.called = true
+			wg.Add(1)
+			go func(s string, x *subSt) {
+				defer wg.Done()
+				r.Emit("subcall", "s", s)
+				ch, err := dec.Subscribe(x.ctx, x.topic)
+				x.ok = err == nil
+				r.Emit("subret", "s", s, "ok", err == nil)
+				close(x.returned)
+				if err != nil {
+					return
+				}
+				for range x.recvCmd { // the consumer receives only when the schedule says so
+					m, ok := <-ch
+					if !ok {
+						r.Emit("outclosed", "s", s)
+						atomic.AddInt32(&x.pending, -1)
+						return
+					}
+					var i int
+					fmt.Sscanf(trim(m.UUID), s+"-m%d", &i)
+					r.Emit("recv", "s", s, "i", i)
+					m.Ack()
+					atomic.AddInt32(&x.pending, -1)
+					x.recvDone <- struct{}{}
+				}
+			}(s, x)
+			select { // the call is inside the decorator: parked after Add, back with an error, or waiting for the lock
+			case <-x.gAdded.ArrivedCh():
+			case <-x.returned:
+			case <-time.After(step / 3):
+			}
+		case "added":
+			if x.called && x.gAdded.Arrived(step) {
+				x.gAdded.Release()
+				<-waitOr(x.returned, step)
+			}
+		case "emit":
+			select {
+			case <-x.returned:
+			default:
+				continue
+			}
+			if !x.ok || x.emitted >= subdecK {
+				continue
+			}
+			sps := inner.Subs(x.topic)
+			if len(sps) == 0 {
+				continue
+			}
+			x.emitted++
+			i := x.emitted
+			wg.Add(1)
+			go func() {
+				defer wg.Done()
+				r.Emit("emit", "s", s)
+				sps[0].Send(message.NewMessage(fmt.Sprintf("%s%s-m%d", prefix, s, i), nil))
+			}()
+			x.gOut[i-1].Arrived(step / 3)
+		case "deliver", "drop":
+			if x.released >= x.emitted {
+				continue
+			}
+			if op == "deliver" && !x.stopped && x.ok {
+				if atomic.LoadInt32(&x.pending) == 0 {
+					atomic.AddInt32(&x.pending, 1)
+					x.recvCmd <- struct{}{}
+					time.Sleep(200 * time.Microsecond) // (the consumer gets to its receive)
+				}
+			}
+			g := x.gOut[x.released]
+			x.released++
+			if g.Arrived(step / 3) {
+				g.Release()
+			}
+			if op == "deliver" {
+				select {
+				case <-x.recvDone:
+				case <-time.After(step / 3):
+				}
+			}
+		case "outclosed":
+			if x.called && x.gClosed.Arrived(step) {
+				x.gClosed.Release()
+			}
+		case "cancel":
+			r.Emit("cancel", "s", s)
+			x.cancel()
+		case "stopread":
+			if x.stopped || atomic.LoadInt32(&x.pending) > 0 {
+				continue // a receive is under way: the consumer cannot be said to have stopped
+			}
+			x.stopped = true
+			r.Emit("stopread", "s", s)
+		case "close":
+			if closeCalled {
+				continue
+			}
+			closeCalled = true
+			wg.Add(1)
+			go func() {
+				defer wg.Done()
+				r.Emit("closecall")
+				_ = dec.Close()
+				r.Emit("closeret")
+			}()
+		case "innerstart":
+			letInnerClose()
+			gInner.Arrived(step / 3)
+		case "innerclosed":
+			if closeCalled && gInner.Arrived(step) {
+				gInner.Release()
+			}
+		case "signalled":
+			if closeCalled && gSignalled.Arrived(step) {
+				gSignalled.Release()
+			}
+		case "waited":
+			if closeCalled && gWaited.Arrived(step) {
+				gWaited.Release()
+			}
+		}
+	}
+	// the schedule is over: everything is let go, Close is called if it was not, and the run is left to finish
+	letInnerClose()
+	for _, g := range all {
+		g.Release()
+	}
+	if !closeCalled {
+		wg.Add(1)
+		go func() {
+			defer wg.Done()
+			r.Emit("closecall")
+			_ = dec.Close()
+			r.Emit("closeret")
+		}()
+	}
+	for _, x := range st {
+		close(x.recvCmd)
+	}
+	if !WaitOrHang(waitWG(&wg)) {
+		r.Emit("hung", "what", "decorator schedule")
 		return
 	}
 	r.Emit("end")
